@@ -373,7 +373,8 @@ func c13history(cs c13hcase) (sig, detail string) {
 			}
 			// what the nodes store
 			for _, m := range cl.Masters() {
-				for key, orig := range model {
+				for _, key := range sched.SortedKeys(model) {
+					orig := model[key]
 					var stored []byte
 					if strings.Contains(key, "/") {
 						parts := strings.SplitN(key, "/", 2)
